@@ -50,6 +50,7 @@ pub fn run(ctx: &Ctx) {
         b.push(Block::new(u_runs(), k2.clone(), "Lambda<=2"));
         b.push(Block::new(u_kind_triples(), vec![Cfg::new(0), Cfg::new(X), Cfg::new(R | X | NE), Cfg::new(E | U)], "{}, x, r+x+ne, e+u"));
         b.push(Block::new(u_many(30), k1.clone(), "Lambda<=1"));
+        b.push(Block::new(u_nested_rep(), vec![Cfg::new(R), Cfg::new(R | X), Cfg::new(R | G)], "r, r+x, r+g"));
     } else {
         let rx = lattice_le(R | X, free, 2);
         b.push(Block::new(crate::props::c05::u_rep_single(&["a", "b"], 9), rx.clone(), "r+x + Lambda<=2"));
